@@ -24,6 +24,7 @@ class C04(Prop):
     driver = 'drv_C04'
     model = 'C04'
     level = 'proof'
+    search_scale = 2          # the widened search after a break: 2 x the thorough stream per seed
     technique = 'history correspondence + invariant proof + abstract link-graph proof'
     level_text = ('no dangling link of any kind, invalid handles, exact subtree, frame condition on the observation and tree closure '
                   'proved for remove_subtree in every state satisfying Inv (hence every reachable state); the delete calls by '
